@@ -1066,7 +1066,8 @@ class Interp:
         if op in ("<", ">", "<=", ">=", "==", "!="):
             a = self.ev(l, env)
             b = self.ev(r, env)
-            if (a is None or isinstance(a, (Obj, Box, FieldRef, ElemRef))) and (b is None or isinstance(b, (Obj, Box, FieldRef, ElemRef))):
+            ptrish = (Obj, Box, FieldRef, ElemRef, Vec, MapVal, SetVal)
+            if (a is None or isinstance(a, ptrish)) and (b is None or isinstance(b, ptrish)):
                 if op == "==":
                     return a is b
                 if op == "!=":
@@ -1613,7 +1614,8 @@ class Interp:
     def std_operator(self, n, op, cname, args, env, want_ref):
         if op == "()" and (cname.startswith("std::function<") or cname.startswith("std::_Bind<")):
             return self.call_value(self.ev(args[0], env), [self.ev(a, env) for a in args[1:]])
-        if "shared_ptr" in cname:
+        if cname.startswith("std::shared_ptr<") or cname.startswith("std::__shared_ptr<") or cname.startswith("std::__shared_ptr_access<") \
+                or (cname.startswith("std::operator") and "shared_ptr" in cname):
             if op in ("->", "*"):
                 return self.ev(args[0], env)
             if op in ("==", "!="):
